@@ -102,6 +102,7 @@ func c14Spec(dyn, rotation bool) WorldSpec {
 		{Name: "WithAuthorizationCodeGrant"}, {Name: "WithImplicitGrant"}, {Name: "WithClientCredentialsGrant"},
 		{Name: "WithRefreshTokenGrant", Z: 600}, {Name: "WithCIBAGrant"}, {Name: "WithPAR", Z: 60},
 		{Name: "WithTokenIntrospection"}, {Name: "WithTokenRevocation"}, {Name: "WithTokenLifetime", Z: 300},
+		{Name: "WithJWTBearerGrant"},
 	}
 	if rotation {
 		opts = append(opts, Opt{Name: "WithRefreshTokenRotation"})
@@ -204,6 +205,17 @@ func c14Scenarios(dyn, rotation bool, cl int) []c14Scn {
 	add("token/client_credentials", func(b *c14Builder) (Op, []Op) {
 		t := Op{Kind: "Token", Grant: "client_credentials", Cred: c14OK(cl), Scope: "email", HG: "HgOk", BA: "BaApprove"}
 		return t, []Op{intro(at(0))}
+	})
+	// jwt-bearer (c2 is registered for it and for refresh_token; a request that names nobody is served for the
+	// anonymous client and makes no client lookup at all)
+	add("token/jwt-bearer", func(b *c14Builder) (Op, []Op) {
+		t := Op{Kind: "Token", Grant: jwtBearerGrant, Cred: c14OK(2), Scope: "openid email", Assertion: "ok:alice", HG: "HgOk", BA: "BaApprove"}
+		return t, []Op{Op{Kind: "Introspect", Cred: c14OK(cl), Tok: PTok{Kind: "PExact", H: mint(0, KAtJwt)}, Allowed: true},
+			Op{Kind: "Introspect", Cred: c14OK(cl), Tok: PTok{Kind: "PExact", H: rt(0)}, Allowed: true}}
+	})
+	add("token/jwt-bearer-anonymous", func(b *c14Builder) (Op, []Op) {
+		t := Op{Kind: "Token", Grant: jwtBearerGrant, Scope: "openid admin", Assertion: "ok:alice", HG: "HgOk", BA: "BaApprove"}
+		return t, []Op{Op{Kind: "Introspect", Cred: c14OK(cl), Tok: PTok{Kind: "PExact", H: mint(0, KAtOpaque)}, Allowed: true}}
 	})
 	for _, ba := range []string{"BaApprove", "BaDeny", "BaPending"} {
 		ba := ba
@@ -811,7 +823,7 @@ func init() {
 		c14WriteFiles(ctx, cases, dcr)
 		ctx.Meta.Cases = len(cases) + len(dcr)
 		ctx.Meta.Distinct = len(distinct)
-		ctx.Meta.Rule = "every flow of DESIGN Appendix A (token x authorization_code, replayed code, refresh_token, expired refresh token, client_credentials, CIBA approve/deny/pending; introspect; revoke; userinfo; par; authorize plain / implicit / hybrid / in progress / failure / PAR / refused PAR; callback code / implicit / in progress / failure; bc-authorize; NotifyCIBASuccess push/ping/poll; NotifyCIBAFailure; DCR create/update/read/delete) x static and dynamic clients x every storage-call position x {error, not-found on reads} singly, x every crash point with a restarted provider, thorough: x all pairs and fault-then-crash; distinct = distinct (flow, plan, crash point, call log, answer class) among the faulted runs"
+		ctx.Meta.Rule = "every flow of DESIGN Appendix A (token x authorization_code, replayed code, refresh_token, expired refresh token, client_credentials, jwt-bearer for an authenticated client and for nobody (the anonymous client), CIBA approve/deny/pending; introspect; revoke; userinfo; par; authorize plain / implicit / hybrid / in progress / failure / PAR / refused PAR; callback code / implicit / in progress / failure; bc-authorize; NotifyCIBASuccess push/ping/poll; NotifyCIBAFailure; DCR create/update/read/delete) x static and dynamic clients x every storage-call position x {error, not-found on reads} singly, x every crash point with a restarted provider, thorough: x all pairs and fault-then-crash; distinct = distinct (flow, plan, crash point, call log, answer class) among the faulted runs"
 		if len(cases) > 0 {
 			s := cases[len(cases)/3]
 			ctx.Meta.Samples = append(ctx.Meta.Samples, map[string]any{"note": s.Note, "faulted_op": s.Op.coq(), "plan": c14Plan(s.Plan), "crash": s.Crash, "log": c14Log(s.Log)})
